@@ -19,7 +19,11 @@ func fund(conf bool, outs ...fundOut) op { return op{K: "fund", Conf: conf, Outs
 func own(scope int, acct uint32, amt int64) fundOut {
 	return fundOut{Scope: scope, Acct: acct, Amt: amt}
 }
-func mine(n int) op          { return op{K: "mine", N: n, Include: "all"} }
+func ownC(scope, coin int, acct uint32, amt int64) fundOut {
+	return fundOut{Scope: scope, Coin: coin, Acct: acct, Amt: amt}
+}
+func imp(i int, amt int64) fundOut { return fundOut{Imp: i, Amt: amt} }
+func mine(n int) op               { return op{K: "mine", N: n, Include: "all"} }
 func pay(amt int64) []payOut { return []payOut{{Kind: "p2wpkh", Amt: amt}} }
 func req(r reqSpec) op {
 	if r.Rate == 0 {
@@ -35,6 +39,9 @@ func systematic() []scenario {
 	var out []scenario
 	add := func(name string, ops ...op) {
 		out = append(out, scenario{name: name, in: c06Input{WSeed: len(out), Ops: ops}})
+	}
+	addWO := func(name string, ops ...op) {
+		out = append(out, scenario{name: name, in: c06Input{WSeed: len(out), WatchOnlyWallet: true, Ops: ops}})
 	}
 	// S8 first: the shortest possible replay.
 	add("explicit_duplicate_create", fund(true, own(84, 0, 1000000)),
@@ -246,12 +253,147 @@ func systematic() []scenario {
 	add("own_tx_conflicts_accepted_then_abandoned", fund(true, own(84, 0, 1000000), own(84, 0, 50000)),
 		req(reqSpec{API: "create", Acct: 0, Scope: 84, MinConf: 1, Pay: pay(300000)}), // held, spends coin 0
 		op{K: "spend", Coins: []int{0}, Outs: []fundOut{{Ext: true, Amt: 990000}}},
-		op{K: "publish", Tx: 0},
+		op{K: "publish", Tx: 0, Accept: true},
 		op{K: "abandon", Tx: 1},
 		req(reqSpec{API: "send", Acct: 0, Scope: 84, MinConf: 0, Pay: pay(300000)}))
 	add("double_spend_pair_one_confirms", three, x1, x2b, op{K: "mine", N: 1, Include: "half"},
 		req(reqSpec{API: "send", Acct: 0, Scope: 84, MinConf: 0, Pay: pay(100000)}),
 		req(reqSpec{API: "create", Acct: 0, Scope: 84, MinConf: 0, Pay: pay(10000), Explicit: []int{1}}))
+
+
+	// ---- key scopes are (purpose, coin type) pairs: BIP84 (84, 0) and the
+	// custom scope (84, 1) share the purpose.  Coin 0 = 50 000 in the requested
+	// scope, coin 1 = 1 000 000 in the other one.
+	for _, d := range []struct {
+		name      string
+		reqCoin   int
+		otherCoin int
+	}{{"bip84_vs_custom", 0, customCoin}, {"custom_vs_bip84", customCoin, 0}} {
+		setup := fund(true, ownC(84, d.reqCoin, 0, 50000), ownC(84, d.otherCoin, 0, 1000000))
+		for _, api := range []string{"create", "sendwith", "send", "fundpsbt"} {
+			r := reqSpec{API: api, Acct: 0, Scope: 84, Coin: d.reqCoin, MinConf: 1, Pay: pay(200000)}
+			if api == "create" || api == "sendwith" {
+				r.Explicit = []int{0, 1}
+			}
+			add("bad_same_purpose_other_coin_"+d.name+"_"+api, setup, req(r),
+				// the good side: the small coin alone, and the big one through its own scope
+				req(reqSpec{API: "create", Acct: 0, Scope: 84, Coin: d.reqCoin, MinConf: 1, Pay: pay(20000)}),
+				req(reqSpec{API: "send", Acct: 0, Scope: 84, Coin: d.otherCoin, MinConf: 1, Pay: pay(200000)}))
+		}
+	}
+	add("custom_scope_all_apis", fund(true, ownC(84, customCoin, 1, 1000000), ownC(84, customCoin, 1, 400000),
+		fundOut{Scope: 84, Coin: customCoin, Acct: 1, Amt: 300000, Internal: true}),
+		req(reqSpec{API: "send", Acct: 1, Scope: 84, Coin: customCoin, MinConf: 1, Pay: pay(1200000)}),
+		req(reqSpec{API: "create", Acct: 1, Scope: 84, Coin: customCoin, MinConf: 0, Pay: pay(150000), Strat: "random", Publish: true}),
+		mine(1),
+		req(reqSpec{API: "fundpsbt", Acct: 1, Scope: 84, Coin: customCoin, MinConf: 1, Pay: pay(50000), Publish: true}))
+	add("no_scope_spends_default_and_custom", fund(true, own(84, 0, 300000), ownC(84, customCoin, 0, 300000), own(44, 0, 300000)),
+		req(reqSpec{API: "send", Acct: 0, Scope: 0, MinConf: 1, Pay: pay(800000)}))
+
+	// ---- imported private keys (account ImportedAddrAccount of the scope they
+	// were imported into), compressed and uncompressed
+	for i, ik := range importedKeys {
+		for _, api := range []string{"create", "send", "fundpsbt"} {
+			add(fmt.Sprintf("imported_key_%d_%s", i+1, api), fund(true, imp(i+1, 1000000), own(ik.purpose, 0, 700000)),
+				req(reqSpec{API: api, Acct: importedAcc, Scope: ik.purpose, MinConf: 1, Pay: pay(300000)}),
+				// the HD account next to it is signed as usual
+				req(reqSpec{API: api, Acct: 0, Scope: ik.purpose, MinConf: 1, Pay: pay(300000), Publish: true}))
+		}
+	}
+	// a key imported WITHOUT its private part next to one with it: signed only
+	// when every selected input's key is held
+	add("imported_public_only_next_to_private", fund(true, imp(3, 600000), imp(6, 300000)),
+		req(reqSpec{API: "create", Acct: importedAcc, Scope: 84, MinConf: 1, Pay: pay(100000)}),                      // key 3 alone: signed
+		req(reqSpec{API: "create", Acct: importedAcc, Scope: 84, MinConf: 1, Pay: pay(800000)}),                      // both: unsigned
+		req(reqSpec{API: "create", Acct: importedAcc, Scope: 84, MinConf: 1, Pay: pay(100000), Explicit: []int{1}}), // key 6 alone: unsigned
+		req(reqSpec{API: "send", Acct: importedAcc, Scope: 84, MinConf: 1, Pay: pay(100000)}))
+	add("imported_keys_no_scope", fund(true, imp(1, 400000), imp(2, 400000), imp(3, 400000), imp(5, 400000)),
+		req(reqSpec{API: "create", Acct: importedAcc, Scope: 0, MinConf: 1, Pay: pay(1400000)}))
+	add("imported_uncompressed_after_restart", fund(true, imp(2, 1000000), imp(1, 500000)), op{K: "restart"},
+		req(reqSpec{API: "create", Acct: importedAcc, Scope: 44, MinConf: 1, Pay: pay(1200000)}))
+	add("imported_other_account_refused", fund(true, own(84, 0, 50000), imp(3, 1000000)),
+		req(reqSpec{API: "create", Acct: 0, Scope: 84, MinConf: 1, Pay: pay(200000), Explicit: []int{0, 1}}),
+		req(reqSpec{API: "send", Acct: 0, Scope: 84, MinConf: 1, Pay: pay(200000)}),
+		req(reqSpec{API: "create", Acct: importedAcc, Scope: 84, MinConf: 1, Pay: pay(200000), Explicit: []int{1, 0}}))
+
+	// ---- watch-only accounts (imported by extended public key): nothing is
+	// signed, and a spendable account next to them is
+	for _, p := range woPurposes {
+		for _, api := range []string{"create", "send", "sendwith", "fundpsbt"} {
+			r := reqSpec{API: api, Acct: woAcct, Scope: p, MinConf: 1, Pay: pay(300000)}
+			g := reqSpec{API: api, Acct: 0, Scope: p, MinConf: 1, Pay: pay(300000), Publish: true}
+			if api == "sendwith" {
+				r.Explicit, g.Explicit = []int{0}, []int{2}
+			}
+			add(fmt.Sprintf("watch_only_account_%d_%s", p, api),
+				fund(true, own(p, woAcct, 1000000), fundOut{Scope: p, Acct: woAcct, Amt: 600000, Internal: true}, own(p, 0, 700000)),
+				req(r), req(g),
+				req(reqSpec{API: "create", Acct: woAcct, Scope: p, MinConf: 1, Pay: pay(300000), Dry: true}))
+		}
+	}
+	add("watch_only_account_no_scope", fund(true, own(84, woAcct, 500000), own(86, woAcct, 500000)),
+		req(reqSpec{API: "create", Acct: woAcct, Scope: 0, MinConf: 1, Pay: pay(800000)}),
+		req(reqSpec{API: "fundpsbt", Acct: woAcct, Scope: 0, MinConf: 1, Pay: pay(800000)}))
+	add("watch_only_account_other_account_refused", fund(true, own(84, 0, 50000), own(84, woAcct, 1000000)),
+		req(reqSpec{API: "create", Acct: 0, Scope: 84, MinConf: 1, Pay: pay(200000), Explicit: []int{0, 1}}),
+		req(reqSpec{API: "send", Acct: 0, Scope: 84, MinConf: 1, Pay: pay(200000)}))
+	// a wallet that is watch-only as a whole: the result is flagged unsigned
+	for _, api := range []string{"send", "sendwith", "create", "fundpsbt"} {
+		r := reqSpec{API: api, Acct: 0, Scope: 84, MinConf: 1, Pay: pay(300000)}
+		if api == "sendwith" {
+			r.Explicit = []int{1}
+		}
+		addWO("watch_only_wallet_"+api, fund(true, own(84, 0, 1000000), own(84, 0, 600000), own(86, 0, 500000)), req(r),
+			req(reqSpec{API: "create", Acct: 0, Scope: 0, MinConf: 1, Pay: pay(1900000)}),
+			req(reqSpec{API: "create", Acct: 0, Scope: 84, MinConf: 1, Pay: pay(100000), Explicit: []int{0, 0}}))
+	}
+
+	// ---- published = created by the wallet, handed over by it, accepted
+	add("publish_rejected_releases_inputs", fund(true, own(84, 0, 1000000), own(84, 0, 50000)),
+		req(reqSpec{API: "create", Acct: 0, Scope: 84, MinConf: 1, Pay: pay(300000)}), // held, spends coin 0
+		op{K: "publish", Tx: 0, Reject: true},
+		req(reqSpec{API: "send", Acct: 0, Scope: 84, MinConf: 1, Pay: pay(300000)}), // needs coin 0 again
+		req(reqSpec{API: "create", Acct: 0, Scope: 84, MinConf: 1, Pay: pay(10000), Explicit: []int{0}})) // now published: refused
+	add("published_then_restart_no_reuse", fund(true, own(84, 0, 1000000), own(84, 0, 900000)),
+		req(reqSpec{API: "send", Acct: 0, Scope: 84, MinConf: 1, Pay: pay(300000)}), // spends coin 0
+		op{K: "restart"},
+		req(reqSpec{API: "send", Acct: 0, Scope: 84, MinConf: 1, Pay: pay(300000)}),                      // must take coin 1
+		req(reqSpec{API: "create", Acct: 0, Scope: 84, MinConf: 0, Pay: pay(10000), Explicit: []int{0}}), // refused
+		op{K: "restart"},
+		req(reqSpec{API: "send", Acct: 0, Scope: 84, MinConf: 1, Pay: pay(300000)}), // nothing confirmed is left
+		req(reqSpec{API: "send", Acct: 0, Scope: 84, MinConf: 0, Pay: pay(300000)}), // the change
+		mine(1), op{K: "restart"},
+		req(reqSpec{API: "send", Acct: 0, Scope: 84, MinConf: 1, Pay: pay(100000)}))
+	add("created_publish_rejected_restart", fund(true, own(86, 0, 1000000)),
+		req(reqSpec{API: "create", Acct: 0, Scope: 86, MinConf: 1, Pay: pay(300000), Publish: true, Reject: true}),
+		op{K: "restart"},
+		req(reqSpec{API: "send", Acct: 0, Scope: 86, MinConf: 1, Pay: pay(300000)}),
+		op{K: "restart"},
+		req(reqSpec{API: "create", Acct: 0, Scope: 86, MinConf: 0, Pay: pay(10000), Explicit: []int{0}}))
+	add("restart_keeps_leases_drops_locks", fund(true, own(84, 0, 1000000), own(84, 0, 900000), own(84, 0, 50000)),
+		op{K: "lease", Coin: 0, ID: 4, Dur: 600}, op{K: "lock", Coin: 1}, op{K: "restart"},
+		req(reqSpec{API: "create", Acct: 0, Scope: 84, MinConf: 1, Pay: pay(10000), Explicit: []int{0}}), // leased: refused
+		req(reqSpec{API: "send", Acct: 0, Scope: 84, MinConf: 1, Pay: pay(300000)}))                      // coin 1: the lock is gone
+
+	// ---- requests issued at once
+	for _, n := range []int{2, 3} {
+		var rs []reqSpec
+		for i := 0; i < n; i++ {
+			rs = append(rs, reqSpec{API: "send", Acct: 0, Scope: 84, MinConf: 1, Rate: 1000, Strat: "largest", Pay: pay(int64(300000 + 1000*i))})
+		}
+		add(fmt.Sprintf("race_%d_sends_three_equal_coins", n), fund(true, own(84, 0, 1000000), own(84, 0, 1000000), own(84, 0, 1000000)),
+			op{K: "race", Race: rs},
+			req(reqSpec{API: "send", Acct: 0, Scope: 84, MinConf: 0, Pay: pay(100000)}))
+		add(fmt.Sprintf("race_%d_sends_one_coin", n), fund(true, own(86, 0, 1000000)),
+			op{K: "race", Race: func() []reqSpec {
+				out := append([]reqSpec{}, rs...)
+				for i := range out {
+					out[i].Scope = 86
+				}
+				return out
+			}()},
+			req(reqSpec{API: "send", Acct: 0, Scope: 86, MinConf: 0, Pay: pay(100000)}))
+	}
 
 	// FundPsbt with caller-supplied inputs (S13): ownership and single use
 	psbtIn := func(name string, ins []int, setup ...op) {
@@ -292,6 +434,14 @@ func randAmt(r *gen.R) int64 {
 }
 
 func randOwn(r *gen.R) fundOut {
+	switch r.Pick(16, 3, 3, 3) {
+	case 1:
+		return fundOut{Scope: 84, Coin: customCoin, Acct: uint32(r.Intn(customAccounts)), Amt: randAmt(r), Internal: r.Chance(1, 5)}
+	case 2:
+		return fundOut{Scope: woPurposes[r.Intn(len(woPurposes))], Acct: woAcct, Amt: randAmt(r), Internal: r.Chance(1, 5)}
+	case 3:
+		return fundOut{Imp: r.Range(1, len(importedKeys)), Amt: randAmt(r)}
+	}
 	return fundOut{Scope: purposes[r.Intn(4)], Acct: uint32(r.Pick(5, 3, 2)), Amt: randAmt(r), Internal: r.Chance(1, 5)}
 }
 
@@ -322,11 +472,39 @@ func randomOps(r *gen.R, n int) func(t *trace, i int) *op {
 		}
 		unspent := coinsWhere(t, func(c *coin) bool { return t.L.spender(c.op, nil) == nil })
 		unconfCoins := coinsWhere(t, func(c *coin) bool { return c.from.height < 0 && t.L.spender(c.op, nil) == nil })
-		switch r.Pick(18, 4, 12, 3, 6, 5, 7, 3, 8, 3, 3, 40, 3, 3) {
+		switch r.Pick(18, 4, 12, 3, 6, 5, 7, 3, 8, 3, 3, 40, 3, 3, 2, 2) {
 		case 12:
 			return &op{K: "abandon", Tx: r.Intn(8)}
 		case 13:
-			return &op{K: "publish", Tx: r.Intn(4), Reject: r.Chance(1, 2)}
+			o := &op{K: "publish", Tx: r.Intn(4)}
+			switch r.Pick(3, 2, 1) {
+			case 1:
+				o.Reject = true
+			case 2:
+				o.Accept = true
+			}
+			return o
+		case 14:
+			return &op{K: "restart"}
+		case 15:
+			// two or three sends at once from one account and scope
+			base := randomRequest(r, t)
+			base.API, base.Explicit, base.PsbtIn, base.HasAllow, base.Allow, base.Dry, base.Reject, base.Accept = "send", nil, nil, false, nil, false, false, false
+			if base.Acct >= nAccounts {
+				base.Acct = 0
+			}
+			n := r.Range(2, 3)
+			var rs []reqSpec
+			for i := 0; i < n; i++ {
+				q := *base
+				q.Pay = nil
+				for _, p := range base.Pay {
+					p.Amt = p.Amt*int64(2+i)/int64(2+n) + 1000
+					q.Pay = append(q.Pay, p)
+				}
+				rs = append(rs, q)
+			}
+			return &op{K: "race", Race: rs}
 		case 0:
 			outs := []fundOut{randOwn(r)}
 			for r.Chance(1, 3) && len(outs) < 3 {
@@ -438,16 +616,24 @@ func randomRequest(r *gen.R, t *trace) *reqSpec {
 	// an account / scope that has something, most of the time
 	rs.Acct = uint32(r.Pick(5, 3, 2))
 	rs.Scope = []int{0, 0, 44, 49, 84, 86}[r.Intn(6)]
+	if r.Chance(1, 12) && rs.Scope == 84 {
+		rs.Coin = customCoin
+		rs.Acct %= customAccounts
+	}
 	if r.Chance(3, 4) {
 		if live := coinsWhere(t, func(c *coin) bool { return t.L.spender(c.op, nil) == nil }); len(live) > 0 {
 			c := t.L.coins[pickFrom(r, live)]
 			rs.Acct = c.own.Acct
 			if rs.Scope != 0 {
-				rs.Scope = c.own.Scope
+				rs.Scope, rs.Coin = c.own.Scope, c.own.Coin
+				if r.Chance(1, 10) && c.own.Scope == 84 {
+					// the other scope with the same purpose
+					rs.Coin = customCoin - c.own.Coin
+				}
 			}
 		}
 	}
-	rv := reqView{acct: rs.Acct, scope: rs.Scope, minconf: rs.MinConf, maturity: int32(t.params.CoinbaseMaturity)}
+	rv := reqView{acct: rs.Acct, scope: rs.Scope, coin: rs.Coin, minconf: rs.MinConf, maturity: int32(t.params.CoinbaseMaturity)}
 	elig := t.L.eligible(rv)
 	var total int64
 	for _, c := range elig {
@@ -455,7 +641,7 @@ func randomRequest(r *gen.R, t *trace) *reqSpec {
 	}
 	rs.Dry = rs.API == "create" && r.Chance(2, 5)
 	rs.Publish = r.Chance(3, 5)
-	rs.Reject = (rs.API == "send" || rs.API == "sendwith") && r.Chance(1, 10)
+	rs.Reject = r.Chance(1, 10)
 
 	target := total * int64([]int{5, 30, 60, 90, 99, 120}[r.Intn(6)]) / 100
 	// explicit selection
@@ -551,6 +737,9 @@ func randomRequest(r *gen.R, t *trace) *reqSpec {
 		p := payOut{Kind: extKinds[r.Intn(len(extKinds))], Amt: amt}
 		if r.Chance(1, 5) {
 			p = payOut{Kind: "own", Scope: purposes[r.Intn(4)], Acct: uint32(r.Intn(nAccounts)), Amt: amt}
+			if r.Chance(1, 6) {
+				p = payOut{Kind: "own", Scope: 84, Coin: customCoin, Acct: uint32(r.Intn(customAccounts)), Amt: amt}
+			}
 		}
 		rs.Pay = append(rs.Pay, p)
 	}
